@@ -114,6 +114,7 @@ pub fn generate(family: &str, seed: u64, tier: &str) -> Vec<String> {
                     json!({"steps":[["send"],["reads"]],"pat":[2,1],"extra":3}),
                     json!({"steps":[["send"],["bytes"]]}),
                     json!({"steps":[["send"],["read",1],["write_to",0]]}),
+                    json!({"steps":[["send"],["text_reader"]],"pk":"ascii","reader_bufs":[3,1,8],"extra":3,"text_is_payload":true}),
                 ];
                 for at in (he.saturating_sub(3))..wl {
                     for (fi, f) in [
@@ -128,7 +129,7 @@ pub fn generate(family: &str, seed: u64, tier: &str) -> Vec<String> {
                     {
                         for (qi, seg) in [json!({"pre":wl}), json!({"segs":vec![1; wl]}), json!({"segs":[he]})].iter().enumerate() {
                             for (pi, p) in pats.iter().enumerate() {
-                                if !thorough && (at + fi + qi) % 2 != pi % 2 {
+                                if !thorough && (at + fi + qi) % 2 != pi % 2 && pi != 5 {
                                     continue;
                                 }
                                 out.push(with(&with(&with(s, seg.clone()), p.clone()), json!({"seed":si,"fault":f,
@@ -327,6 +328,10 @@ pub fn generate(family: &str, seed: u64, tier: &str) -> Vec<String> {
                                 "body":{"kind":framing,"chunkpat":[*r.pick(&[1usize, 13, 4096, 65536, 100000]), *r.pick(&[5usize, 65537, 8192])]}}));
                             if coding == "gzip" && level % 4 == 1 {
                                 sc["gz"] = json!({"name":"payload.bin","comment":"a comment","extra":"XTRA"});
+                            }
+                            if (level + pi) % 4 == 2 {
+                                // not having asked for compression does not change what a declared coding means
+                                sc["allow_compression"] = json!(false);
                             }
                             match r.below(4) {
                                 0 => sc["pre"] = json!(10_000_000),
